@@ -229,9 +229,15 @@ func c11Run(r *vt.Run, c c11Case) (canon string) {
 func checkC11(r *vt.Run) {
 	var rc c11Case
 	if r.ReplayInto(&rc) {
-		c11Run(r, rc)
+		var sc c11StateCase
+		if r.ReplayInto(&sc) && sc.State {
+			c11StateRun(r, sc)
+		} else {
+			c11Run(r, rc)
+		}
 		return
 	}
+	defer checkC11States(r)
 	depth := 4
 	if r.Thorough() {
 		depth = 6
